@@ -139,6 +139,10 @@ pub fn install_panic_hook() {
         } else {
             "<non-string panic>".into()
         };
+        if !info.can_unwind() {
+            // about to abort (e.g. a violated unsafe precondition): leave the reason on stderr for the runner
+            eprintln!("non-unwinding panic: {} @ {}", msg, loc);
+        }
         if let Ok(mut p) = PANICS.lock() {
             if p.len() < 8 {
                 p.push(format!("{} @ {}", msg, loc));
